@@ -43,16 +43,21 @@ func Harness_C12_refname() {
 	VerifCover("done")
 }
 
-var nameMenu = []string{"a", "a/b", "a/b/c", "a/c", "ab", "b", "b/.", "c//d"}
+var nameMenu = []string{"a", "a/a", "a/b", "a/b/c", "a/c", "ab", "b", "b/.", "c//d"}
+
+const nValidNames = 7 // the leading valid names of the menu
+
+// apiMenu is the menu of the API-level harnesses (h_stack.go)
+var apiMenu = []string{"a", "a/b", "a/b/c", "a/c", "ab", "b"}
 
 // Harness_C12_step: one transaction against an arbitrary conflict-free live set is accepted exactly when the resulting live set is conflict-free and every added name is valid (inductive step: covers histories of any length whose live set stays within the bound).
-// bounds: live set = any conflict-free subset (size <= 3) of the valid names of the menu {a, a/b, a/b/c, a/c, ab, b}; transaction = any subset (size <= 3) of the menu (including the invalid names b/. and c//d), each record an addition of a value ref or of a symbolic ref, or a deletion, in name order; the live refs are all value refs or all symbolic refs
+// bounds: live set = any conflict-free subset (size <= 3) of the valid names of the menu {a, a/a, a/b, a/b/c, a/c, ab, b}; transaction = any subset (size <= 3) of the menu (including the invalid names b/. and c//d), each record an addition of a value ref or of a symbolic ref, or a deletion, in name order; the live refs are all value refs or all symbolic refs
 // covers: accepted, rejected
 func Harness_C12_step() {
 	var live []string
 	tab := &memTable{name: "live", min: 1, max: 1}
 	liveSym := VerifChoose(2) == 1 // the live refs are symbolic refs
-	for i := 0; i < 6; i++ {
+	for i := 0; i < nValidNames; i++ {
 		if len(live) < 3 && VerifChoose(2) == 1 {
 			live = append(live, nameMenu[i])
 			lr := RefRecord{RefName: nameMenu[i], UpdateIndex: 1, Value: hashWith(20, 1, 1)}
